@@ -159,11 +159,11 @@ structure CloneInv (val : Env) (e' : Env) (m : List (Var × Var)) (F : Nat) : Pr
   ok : ∀ y y', m.lookup y = some y' → e' y' = val y
   lt : ∀ y y', m.lookup y = some y' → y' < F
 
-theorem clone_inv (pre : List Stmt) (E e : Env) (iv : Var) (F0 : Nat) (hssa : pureSSA pre = true)
-    (hfree : ∀ y, y ∉ pre.flatMap pureDef → y ≠ iv → E y = e y) :
+theorem clone_inv (pre : List Stmt) (E e : Env) (iv : Var) (F0 : Nat) (hssa : pureSSA pre = true) (Rd : Var → Prop)
+    (hfree : ∀ y, Rd y → y ∉ pre.flatMap pureDef → y ≠ iv → E y = e y) :
     ∀ (chain : List Stmt) (m : List (Var × Var)) (F : Nat) (e' : Env), F0 ≤ F → (∀ s ∈ chain, s ∈ pre) →
       closedChain (pre.flatMap pureDef) iv chain (m.map (·.1)) = true →
-      (∀ s ∈ chain, ∀ y ∈ pureArgs s, y < F0) →
+      (∀ s ∈ chain, ∀ y ∈ pureArgs s, y < F0 ∧ Rd y) →
       (∀ y, y < F0 → e' y = e y) → CloneInv (runPure cfg pre E) e' m F →
       CloneInv (runPure cfg pre E) (runPure cfg (cloneChain chain m F).1 e') (cloneChain chain m F).2.1 (cloneChain chain m F).2.2
       ∧ (∀ y, y < F0 → runPure cfg (cloneChain chain m F).1 e' y = e y)
@@ -191,8 +191,8 @@ theorem clone_inv (pre : List Stmt) (E e : Env) (iv : Var) (F0 : Nat) (hssa : pu
             exact hinv.ok y y' hy'
           · have hnk : y ∉ m.map (·.1) ∨ y ∈ m.map (·.1) := (Classical.em _).symm
             rcases hnk with hnk | hk
-            · rw [renameVar_none hnk, hag y (hlt _ List.mem_cons_self y (by simpa [pureArgs] using hy)),
-                ← hfree y hnp hniv, runPure_frame cfg pre E y hnp]
+            · rw [renameVar_none hnk, hag y (hlt _ List.mem_cons_self y (by simpa [pureArgs] using hy)).1,
+                ← hfree y (hlt _ List.mem_cons_self y (by simpa [pureArgs] using hy)).2 hnp hniv, runPure_frame cfg pre E y hnp]
             · obtain ⟨y', hy'⟩ := lookup_isSome_of_mem hk
               rw [renameVar_some hy']
               exact hinv.ok y y' hy'
@@ -225,7 +225,7 @@ theorem clone_inv (pre : List Stmt) (E e : Env) (iv : Var) (F0 : Nat) (hssa : pu
           simp only [setEnv]
           rw [if_neg (Nat.ne_of_lt (Nat.lt_of_lt_of_le hy hF))]
           exact hag y hy
-        have ih := clone_inv pre E e iv F0 hssa hfree r ((d, F) :: m) (F + 1) e'' (by omega)
+        have ih := clone_inv pre E e iv F0 hssa Rd hfree r ((d, F) :: m) (F + 1) e'' (by omega)
           (fun s hs => hsub s (List.mem_cons_of_mem _ hs)) (by simpa using hcl')
           (fun s hs => hlt s (List.mem_cons_of_mem _ hs)) hag' hinv'
         simp only [cloneChain, runPure, stepPure]
@@ -244,7 +244,7 @@ theorem clone_inv (pre : List Stmt) (E e : Env) (iv : Var) (F0 : Nat) (hssa : pu
           · exact Or.inr (Or.inr h)
       all_goals
         simp only [closedChain] at hcl
-        have ih := clone_inv pre E e iv F0 hssa hfree r m F e' hF
+        have ih := clone_inv pre E e iv F0 hssa Rd hfree r m F e' hF
           (fun s hs => hsub s (List.mem_cons_of_mem _ hs)) hcl
           (fun s hs => hlt s (List.mem_cons_of_mem _ hs)) hag hinv
         simpa [cloneChain, pureDef] using ih
@@ -262,8 +262,8 @@ theorem clone_correct (pre : List Stmt) (need : List Var) (iv X : Var) (e : Env)
         (renameVar (cloneChain (inputChain pre.reverse need) [(iv, X)] F0).2.1 x)
       = runPure cfg pre (setEnv e iv (e X)) x)
     ∧ (∀ y, y < F0 → runPure cfg (cloneChain (inputChain pre.reverse need) [(iv, X)] F0).1 e y = e y) := by
-  have hfree : ∀ y, y ∉ pre.flatMap pureDef → y ≠ iv → setEnv e iv (e X) y = e y := by
-    intro y _ hy; simp [setEnv, hy]
+  have hfree : ∀ y, True → y ∉ pre.flatMap pureDef → y ≠ iv → setEnv e iv (e X) y = e y := by
+    intro y _ _ hy; simp [setEnv, hy]
   have hviv : runPure cfg pre (setEnv e iv (e X)) iv = e X := by
     rw [runPure_frame cfg pre _ iv hiv]; simp [setEnv]
   have hinit : CloneInv (runPure cfg pre (setEnv e iv (e X))) e [(iv, X)] F0 := by
@@ -281,10 +281,10 @@ theorem clone_correct (pre : List Stmt) (need : List Var) (iv X : Var) (e : Env)
       split at hl
       · injection hl with hl; subst hl; exact hX
       · cases hl
-  obtain ⟨hinv, hag, hkeys⟩ := clone_inv cfg pre (setEnv e iv (e X)) e iv F0 hssa hfree
+  obtain ⟨hinv, hag, hkeys⟩ := clone_inv cfg pre (setEnv e iv (e X)) e iv F0 hssa (fun _ => True) hfree
     (inputChain pre.reverse need) [(iv, X)] F0 e (Nat.le_refl _)
     (fun s hs => List.mem_reverse.mp (inputChain_sub _ _ s hs)) (by simpa using hcl)
-    (fun s hs y hy => hreads s (List.mem_reverse.mp (inputChain_sub _ _ s hs)) y hy) (fun _ _ => rfl) hinit
+    (fun s hs y hy => ⟨hreads s (List.mem_reverse.mp (inputChain_sub _ _ s hs)) y hy, trivial⟩) (fun _ _ => rfl) hinit
   refine ⟨?_, hag⟩
   intro x hx
   have hmapped : x ∈ (cloneChain (inputChain pre.reverse need) [(iv, X)] F0).2.1.map (·.1) →
